@@ -1,5 +1,6 @@
 import BppProofs.Lemmas.DiscretizeCompound
 import BppProofs.Lemmas.DiscretizeTermination
+import BppProofs.Lemmas.DiscretizeCompoundHistory
 /-!
 # C09 — compound distributions obey the same normalisation
 (ConstantDistribution, SimpleDiscreteDistribution, InvariantMixedDiscreteDistribution,
@@ -51,6 +52,30 @@ constraint `PROP_CONSTRAINT_IN` enforces on every accepted update. -/
 theorem compound_normalised_simple (s s' : SimpleSt ℝ) (hlen : s.thetas.length + 1 = s.vs.length)
     (hth : ∀ t ∈ s.thetas, 0 ≤ t ∧ t ≤ 1) (h : s.rebuild = .ok s') : Normalised s'.dd.dist :=
   simple_rebuild_normalised s s' hlen hth h
+
+/-- **compound_normalised_simple_history**: a user-specified distribution built by its constructor
+(at least one value) satisfies, after *every* history of parameter updates (accepted or refused),
+restrictions, median toggles and re-discretisations: one theta less than values, every theta in
+`[0,1]`, and probabilities summing to one up to the precision given to the constructor — the
+constructor accepts `|1 − Σp| ≤ precision` and stores the given probabilities as they are (so right
+after construction the normalisation is *not* exact, and the last probability may be negative by
+up to the precision); from the first accepted update on the sum is exactly one and every
+probability non-negative (`compound_normalised_simple_update`). -/
+theorem compound_normalised_simple_history (values probas : List ℝ) (prec : ℝ) (s : SimpleSt ℝ) (ops : List SimpleOp)
+    (hne : values ≠ []) (hp : 0 ≤ prec) (h : SimpleSt.make values probas prec = .ok s) :
+    SimpleInv (ops.foldl simpleStep s) ∧ |1 - (TMap.vals (ops.foldl simpleStep s).dd.dist).sum| ≤ prec :=
+  simpleRun_good prec hp ops s (simple_make_spec values probas prec s hne h)
+
+/-- an accepted update of a state satisfying the invariant leaves an exactly normalised distribution
+and the invariant -/
+theorem compound_normalised_simple_update (s s' : SimpleSt ℝ) (name : String) (v : ℝ) (hi : SimpleInv s)
+    (h : s.setP name v = .ok s') : SimpleInv s' ∧ Normalised s'.dd.dist :=
+  simple_setP_inv s s' name v hi h
+
+/-- non-vacuity: the constructor accepts probabilities that do not sum to one exactly -/
+example : (match SimpleSt.make [1, 2] [1/2, 1/2 + 1/2000] (1/1000 : Rat) with
+    | .ok s => s.dd.dist == [(1, 1/2), (2, 1/2 + 1/2000)] && s.thetas == [1/2]
+    | .error _ => false) = true := by decide +kernel
 
 /-- **simple_rebuild_terminates**: `fireParameterChanged` of a user-specified distribution returns
 for every precision `≥ 0` (0 included: exact comparison), every domain and all parameter values —
